@@ -88,7 +88,7 @@ Proof.
   do 4 exec1 H.
   apply mint_spec in E0. destruct E0 as (Hm0 & b1 & sp1 & -> & Hb1 & Hs1).
   exec1 H.
-  destruct (CK _ (get_ep_in _ _ _ M)) as [Hddf Hio].
+  destruct (CK _ (get_ep_in _ _ _ M)) as (Hddf & Hio & Hcl).
   apply deliver_spec in E0; [|lia|exact Hddf]. destruct E0 as (Hfs & b2 & -> & Hb2). ssimpl.
   injection H as <-.
   match goal with |- context [upd_mint ?st ?a0 ?p0 ?m ?ad] =>
@@ -243,6 +243,53 @@ Proof.
   constructor; ssimpl; bc_simpl; try reflexivity.
   - congruence.
   - intros a' p'. prod_rw. rewrite andb_false_r, orb_false_r. reflexivity.
+  - intros a' p'. prod_rw. eqb_cases.
+  - intros a' p'. prod_rw. eqb_cases.
+  - intros a' p'. prod_rw. eqb_cases.
+  - lia.
+  - intros a' x. bal_rw. rewrite Hdi, Hdo. ledger.
+  - intros d. bal_rw. rewrite Hdo. ledger.
+  - repeat split; reflexivity.
+Qed.
+
+Lemma create_h_effect c s f a e ain aout s' :
+  cfg_ok c -> 0 < ain -> 0 < aout ->
+  create_h c s f a e ain aout = Ok s' ->
+  exists ep closing, get_ep c e = Some ep /\ a = ep_app ep /\ ep_stable ep = false /\ e_status (esm s a) = false /\
+    ep_floor ep <= aout /\ pmint s a e + aout <= ep_ceiling ep /\
+    verify_cr s ep ain aout false = Ok tt /\ 0 <= closing /\
+    ddf_fee ep aout = feeq aout (ep_ddf ep) /\
+    effect c s s' f (BNew (mkV (vid s + 1) f a e ain aout 0 closing)) (feeq aout (ep_ddf ep)).
+Proof.
+  intros [_ CK] Hain Haout H. unfold create_h in H. cbv zeta in H.
+  exec_checks H.
+  destruct (ensure_prod_spec s a e) as (f0 & Hens & Hf01 & Hf02 & Hf03 & Hf04).
+  rewrite Hens in *.
+  exec1 H. exec1 H. apply csend_spec in E0. destruct E0 as (b1 & -> & Hb1).
+  exec1 H. exec1 H. apply mint_spec in E0. destruct E0 as (_ & b2 & sp2 & -> & Hb2 & Hs2).
+  exec1 H.
+  destruct (CK _ (get_ep_in _ _ _ M)) as (Hddf & Hio & Hcl).
+  apply deliver_spec in E0; [|lia|exact Hddf]. destruct E0 as (Hfs & b3 & -> & Hb3). ssimpl.
+  exec_checks H. injection H as <-. bool_norm.
+  pose proof (get_ep_id _ _ _ M) as Hid.
+  pose proof (denom_in_ep _ _ _ M) as Hdi. pose proof (denom_out_ep _ _ _ M) as Hdo.
+  match goal with |- context [prod_on_create ?st ?a0 ?p0 ?i ?o ?k] =>
+    destruct (prod_on_create_spec st a0 p0 i o k) as (f1 & -> & Hf11 & Hf12 & Hf13 & Hf14) end.
+  destruct (feeq_bounds aout (ep_ddf e0) ltac:(lia) Hddf) as [Hfb _].
+  exists e0, z0. repeat (split; [first [reflexivity|congruence|lia]|]).
+  split. { unfold prod_mint in C7. ssimpl. rewrite pmint_f, <- Hf03. unfold fmint. destruct (f0 a e); lia. }
+  split. { match type of E with _ = Ok ?u => destruct u end. erewrite verify_cr_env; [exact E|reflexivity..]. }
+  split.
+  { apply fee_share_val in M1. rewrite M1. unfold feeq. pose proof P18_pos.
+    unfold int64_c in M0. destruct (_ && _) in M0; [|discriminate]. injection M0 as <-.
+    apply Z.quot_pos; nia. }
+  split. { apply ddf_fee_val. exact Hfs. }
+  constructor; ssimpl; bc_simpl; try reflexivity.
+  - split; [reflexivity|]. exists e0. split; [exact M|exact C3].
+  - unfold wfv; bc_simpl. apply fee_share_val in M1. rewrite M1. unfold feeq. pose proof P18_pos.
+    unfold int64_c in M0. destruct (_ && _) in M0; [|discriminate]. injection M0 as <-.
+    repeat split; try lia. apply Z.quot_pos; nia.
+  - intros a' p'. prod_rw. rewrite andb_true_r. eqb_cases; rewrite ?orb_true_r, ?orb_false_r; reflexivity.
   - intros a' p'. prod_rw. eqb_cases.
   - intros a' p'. prod_rw. eqb_cases.
   - intros a' p'. prod_rw. eqb_cases.
